@@ -101,6 +101,9 @@ def specs(thorough):
         for vpat in ("zero", "max", "rev"):
             out.append((0, mant, 0, vpat, 0, b"", None))
     out.append((0, 4, 0, "alt", 1, b"", None))
+    # more than 8 rings: the sign field spans several bytes (spare bits live in the LAST byte only)
+    out.append((0, 19, 0, "alt", 0, b"", None))
+    out.append((0, 24, 1, "alt", 0, b"", None))
     out.append((2, 5, 7, "alt", 1, b"extra-commit-data", None))
     out.append((0, 3, 0, "alt", 0, bytes(range(40)), None))
     return out
